@@ -186,15 +186,26 @@ Lemma sget_cons : forall l ou oc su sc ou' su',
   if N.eqb ou ou' && N.eqb su su' then Some (oc, sc) else sget l ou' su'.
 Proof. reflexivity. Qed.
 
+Lemma sdel_cons : forall l x ou su,
+  sdel (x :: l) ou su = if svc_key_eqb x ou su then sdel l ou su else x :: sdel l ou su.
+Proof. intros. unfold sdel. cbn. now destruct (svc_key_eqb x ou su). Qed.
+
+Lemma sget_cons' : forall l x ou su,
+  sget (x :: l) ou su = if svc_key_eqb x ou su
+                        then match x with (_, oc, _, sc) => Some (oc, sc) end else sget l ou su.
+Proof. reflexivity. Qed.
+
 Lemma sget_sdel : forall l ou su ou' su',
   sget (sdel l ou su) ou' su' = if N.eqb ou ou' && N.eqb su su' then None else sget l ou' su'.
 Proof.
-  induction l as [|[[[a b] c] d] l IH]; intros; cbn.
-  - now destruct (N.eqb ou ou' && N.eqb su su').
-  - destruct (N.eqb a ou && N.eqb c su) eqn:E1; cbn.
+  induction l as [|[[[a b] c] d] l IH]; intros.
+  - cbn. now destruct (N.eqb ou ou' && N.eqb su su').
+  - rewrite sdel_cons, sget_cons'. unfold svc_key_eqb.
+    destruct (N.eqb a ou && N.eqb c su) eqn:E1.
     + rewrite IH. apply andb_true_iff in E1 as [E1 E2]. apply N.eqb_eq in E1, E2. subst.
       now destruct (N.eqb ou ou' && N.eqb su su').
-    + rewrite IH. destruct (N.eqb a ou' && N.eqb c su') eqn:E2; auto.
+    + rewrite sget_cons'. unfold svc_key_eqb. rewrite IH.
+      destruct (N.eqb a ou' && N.eqb c su') eqn:E2; auto.
       apply andb_true_iff in E2 as [E2 E3]. apply N.eqb_eq in E2, E3. subst.
       destruct (N.eqb ou ou' && N.eqb su su') eqn:E4; auto.
       apply andb_true_iff in E4 as [E4 E5]. apply N.eqb_eq in E4, E5. subst.
@@ -290,4 +301,1100 @@ Lemma deliverable_app : forall l1 l2 T,
 Proof.
   induction l1 as [|ev l1 IH]; intros; cbn; auto.
   rewrite IH. now rewrite andb_assoc.
+Qed.
+
+(* ------------------------------------------------------------------ specification side, unfolded *)
+Definition mcore (T : truth) (obj : option uuid) (req : list uuid) (u c : uuid) : bool :=
+  opt_matches obj u
+  && match req with
+     | [] => opt_eqb (aget (t_objs T) u) (Some c)
+     | _ => req_ok T u c req
+     end.
+
+Definition dcore (T : truth) (ev : bus_event) (k : N) (obj : option uuid) (req : list uuid) : option devent :=
+  let (u, c) := ev_obj ev in
+  match mcore T obj req u c, mcore (tstep T ev) obj req u c with
+  | false, true => Some (mkDev k Created u c)
+  | true, false => Some (mkDev k Destroyed u c)
+  | _, _ => None
+  end.
+
+Lemma matchingb_mcore : forall T sp u c, matchingb T sp u c = mcore T (sp_obj sp) (sp_req sp) u c.
+Proof. intros. unfold matchingb, mcore. now destruct (sp_req sp). Qed.
+Lemma delta_dcore : forall T ev sp, delta T ev sp = dcore T ev (sp_key sp) (sp_obj sp) (sp_req sp).
+Proof. intros. unfold delta, dcore. destruct (ev_obj ev). now rewrite !matchingb_mcore. Qed.
+
+Lemma req_ok_true : forall T u c req,
+  req_ok T u c req = true <-> forall s, In s req -> exists sc, sget (t_svcs T) u s = Some (c, sc).
+Proof.
+  intros. unfold req_ok. rewrite forallb_forall. split; intros H s HI; specialize (H s HI).
+  - destruct (sget (t_svcs T) u s) as [[oc sc]|]; [|discriminate].
+    apply N.eqb_eq in H. subst. eauto.
+  - destruct H as [sc ->]. apply N.eqb_refl.
+Qed.
+
+Lemma forallb_ext_in' : forall A (f g : A -> bool) l, (forall a, In a l -> f a = g a) -> forallb f l = forallb g l.
+Proof. intros. induction l; cbn; auto. rewrite H, IHl; auto; [intros; apply H; now right | now left]. Qed.
+
+Lemma req_ok_frame : forall T T' u c req,
+  (forall s, In s req -> sget (t_svcs T') u s = sget (t_svcs T) u s) ->
+  req_ok T' u c req = req_ok T u c req.
+Proof.
+  intros. unfold req_ok. apply forallb_ext_in'. intros s HI. now rewrite H.
+Qed.
+
+Lemma dcore_same : forall T ev k obj req,
+  (let (u, c) := ev_obj ev in mcore (tstep T ev) obj req u c = mcore T obj req u c) ->
+  dcore T ev k obj req = None.
+Proof.
+  intros T ev k obj req H. unfold dcore. destruct (ev_obj ev) as [u c]. rewrite H.
+  now destruct (mcore T obj req u c).
+Qed.
+
+Lemma dcore_created : forall T ev k obj req u c,
+  ev_obj ev = (u, c) -> mcore T obj req u c = false -> mcore (tstep T ev) obj req u c = true ->
+  dcore T ev k obj req = Some (mkDev k Created u c).
+Proof. intros T ev k obj req u c E H1 H2. unfold dcore. now rewrite E, H1, H2. Qed.
+
+Lemma dcore_destroyed : forall T ev k obj req u c,
+  ev_obj ev = (u, c) -> mcore T obj req u c = true -> mcore (tstep T ev) obj req u c = false ->
+  dcore T ev k obj req = Some (mkDev k Destroyed u c).
+Proof. intros T ev k obj req u c E H1 H2. unfold dcore. now rewrite E, H1, H2. Qed.
+
+(* ------------------------------------------------------------------ the invariant *)
+Definition Inv (k : N) (obj : option uuid) (req : list uuid) (T : truth) (e : entry) : Prop :=
+  match obj, req with
+  | None, [] =>
+      exists created, e = EAny k [] created /\ NoDup (map fst created) /\
+        forall u, aget created u = aget (t_objs T) u
+  | None, _ :: _ =>
+      exists services created, e = EAny k services created /\ map fst services = req /\
+        NoDup (map fst created) /\
+        (forall s m, aget services s = Some m ->
+           forall ou, aget m ou = option_map snd (sget (t_svcs T) ou s)) /\
+        (forall u c, aget created u = Some c <-> req_ok T u c req = true)
+  | Some o, [] => e = ESpecWithout k o (aget (t_objs T) o)
+  | Some o, _ :: _ =>
+      exists cookie services, e = ESpecWith k o cookie services /\ map fst services = req /\
+        (forall s v, aget services s = Some v -> v = option_map snd (sget (t_svcs T) o s)) /\
+        (forall c, cookie = Some c <-> req_ok T o c req = true)
+  end.
+
+(* ---- kind 1: any object, no services *)
+Lemma step_any0 : forall k T ev e,
+  legalb T ev = true -> Inv k None [] T e ->
+  exists e', entry_step e ev = Ok (e', dcore T ev k None []) /\ Inv k None [] (tstep T ev) e'.
+Proof.
+  intros k T ev e L (created & -> & ND & HC).
+  destruct ev as [u c|u c|ou oc su sc|ou oc su sc]; cbn [entry_step].
+  - apply legal_oc_inv in L as [L _].
+    unfold any_object_created. rewrite HC, L. eexists; split.
+    + f_equal. f_equal. symmetry. apply dcore_created with (u := u) (c := c); auto.
+      * unfold mcore. cbn [opt_matches]. rewrite L. reflexivity.
+      * unfold mcore. cbn [opt_matches tstep t_objs]. rewrite aget_cons, N.eqb_refl. cbn. apply N.eqb_refl.
+    + exists (aset created u c). split; auto. split; [now apply nodup_aset|].
+      intro u'. cbn [tstep t_objs]. rewrite aget_aset, aget_cons, HC. reflexivity.
+  - apply legal_od_inv in L as [L _].
+    unfold any_object_destroyed. rewrite HC, L, N.eqb_refl. eexists; split.
+    + f_equal. f_equal. symmetry. apply dcore_destroyed with (u := u) (c := c); auto.
+      * unfold mcore. cbn [opt_matches]. rewrite L. cbn. apply N.eqb_refl.
+      * unfold mcore. cbn [opt_matches tstep t_objs]. rewrite aget_adel, N.eqb_refl. reflexivity.
+    + exists (adel created u). split; auto. split; [now apply nodup_adel|].
+      intro u'. cbn [tstep t_objs]. rewrite !aget_adel, HC. reflexivity.
+  - unfold any_service_created. cbn [aget]. eexists; split.
+    + f_equal. f_equal. symmetry. apply dcore_same. reflexivity.
+    + exists created. auto.
+  - unfold any_service_destroyed. cbn [aget]. eexists; split.
+    + f_equal. f_equal. symmetry. apply dcore_same. reflexivity.
+    + exists created. auto.
+Qed.
+
+(* ---- kind 2: specific object, no services *)
+Lemma step_without : forall k o T ev e,
+  legalb T ev = true -> Inv k (Some o) [] T e ->
+  exists e', entry_step e ev = Ok (e', dcore T ev k (Some o) []) /\ Inv k (Some o) [] (tstep T ev) e'.
+Proof.
+  intros k o T ev e L ->.
+  destruct ev as [u c|u c|ou oc su sc|ou oc su sc]; cbn [entry_step].
+  - apply legal_oc_inv in L as [L _]. unfold without_object_created.
+    eqb_case u o; cbn [negb].
+    + subst u. rewrite L. eexists; split.
+      * f_equal. f_equal. symmetry. apply dcore_created with (u := o) (c := c); auto.
+        -- unfold mcore. rewrite L. cbn. now rewrite andb_false_r.
+        -- unfold mcore. cbn [opt_matches tstep t_objs]. rewrite aget_cons, !N.eqb_refl. cbn. apply N.eqb_refl.
+      * cbn [Inv tstep t_objs]. rewrite aget_cons, N.eqb_refl. reflexivity.
+    + eexists; split.
+      * f_equal. f_equal. symmetry. apply dcore_same. cbn [ev_obj]. unfold mcore. cbn [opt_matches].
+        rewrite (eqb_sym' o u). apply N.eqb_neq in E. now rewrite E.
+      * cbn [Inv tstep t_objs]. rewrite aget_cons. apply N.eqb_neq in E. now rewrite E.
+  - apply legal_od_inv in L as [L _]. unfold without_object_destroyed.
+    eqb_case u o; cbn [negb].
+    + subst u. rewrite L. cbn [opt_eqb]. rewrite N.eqb_refl. eexists; split.
+      * f_equal. f_equal. symmetry. apply dcore_destroyed with (u := o) (c := c); auto.
+        -- unfold mcore. rewrite L. cbn. now rewrite !N.eqb_refl.
+        -- unfold mcore. cbn [opt_matches tstep t_objs]. rewrite aget_adel, !N.eqb_refl. reflexivity.
+      * cbn [Inv tstep t_objs]. rewrite aget_adel, N.eqb_refl. reflexivity.
+    + eexists; split.
+      * f_equal. f_equal. symmetry. apply dcore_same. cbn [ev_obj]. unfold mcore. cbn [opt_matches].
+        rewrite (eqb_sym' o u). apply N.eqb_neq in E. now rewrite E.
+      * cbn [Inv tstep t_objs]. rewrite aget_adel. apply N.eqb_neq in E. now rewrite E.
+  - eexists; split.
+    + f_equal. f_equal. symmetry. apply dcore_same. reflexivity.
+    + reflexivity.
+  - eexists; split.
+    + f_equal. f_equal. symmetry. apply dcore_same. reflexivity.
+    + reflexivity.
+Qed.
+
+(* ---- how a step changes the service lookup *)
+Lemma sget_step_sc : forall T ou oc su sc ou' su',
+  sget (t_svcs (tstep T (EvServiceCreated ou oc su sc))) ou' su' =
+  if N.eqb ou ou' && N.eqb su su' then Some (oc, sc) else sget (t_svcs T) ou' su'.
+Proof. reflexivity. Qed.
+
+Lemma sget_step_sd : forall T ou oc su sc ou' su',
+  sget (t_svcs (tstep T (EvServiceDestroyed ou oc su sc))) ou' su' =
+  if N.eqb ou ou' && N.eqb su su' then None else sget (t_svcs T) ou' su'.
+Proof. intros. cbn [tstep t_svcs]. apply sget_sdel. Qed.
+
+Lemma req_ok_svcs : forall T T' u c req, t_svcs T' = t_svcs T -> req_ok T' u c req = req_ok T u c req.
+Proof. intros. unfold req_ok. now rewrite H. Qed.
+
+Lemma req_ok_missing : forall T u c req s, In s req -> sget (t_svcs T) u s = None -> req_ok T u c req = false.
+Proof.
+  intros T u c req s HI HN. destruct (req_ok T u c req) eqn:E; auto.
+  rewrite req_ok_true in E. destruct (E s HI) as [sc E']. congruence.
+Qed.
+
+Lemma req_ok_cookie : forall T u c req s oc sc,
+  In s req -> sget (t_svcs T) u s = Some (oc, sc) -> req_ok T u c req = true -> c = oc.
+Proof.
+  intros T u c req s oc sc HI HS E. rewrite req_ok_true in E. destruct (E s HI) as [sc' E']. congruence.
+Qed.
+
+Lemma bool_iff_eq : forall a b : bool, (a = true <-> b = true) -> a = b.
+Proof. intros [|] [|] [H1 H2]; auto; try (symmetry; auto); auto. Qed.
+
+Lemma mcore_with : forall T o r req u c,
+  mcore T (Some o) (r :: req) u c = N.eqb o u && req_ok T u c (r :: req).
+Proof. reflexivity. Qed.
+Lemma mcore_any : forall T r req u c, mcore T None (r :: req) u c = req_ok T u c (r :: req).
+Proof. reflexivity. Qed.
+
+(* ---- kind 3: specific object with services *)
+Lemma step_with : forall k o r req T ev e,
+  NoDup (r :: req) -> legalb T ev = true -> Inv k (Some o) (r :: req) T e ->
+  exists e', entry_step e ev = Ok (e', dcore T ev k (Some o) (r :: req)) /\
+             Inv k (Some o) (r :: req) (tstep T ev) e'.
+Proof.
+  intros k o r req T ev e ND L (cookie & services & -> & HK & HS & HC).
+  remember (r :: req) as R eqn:ER.
+  assert (Hkeys : forall s, In s R <-> exists v, aget services s = Some v).
+  { intro s. rewrite <- HK. split; [apply key_aget_some|intros [v H]; eapply aget_some_key; eauto]. }
+  assert (INV0 : forall T', t_svcs T' = t_svcs T ->
+            Inv k (Some o) R T' (ESpecWith k o cookie services)).
+  { intros T' ET. subst R. cbn [Inv]. exists cookie, services. repeat split; auto.
+    - intros s v H. rewrite ET. auto.
+    - intro H. rewrite (req_ok_svcs T T'); auto. now apply HC.
+    - intro H. rewrite (req_ok_svcs T T') in H; auto. now apply HC. }
+  destruct ev as [u c|u c|ou oc su sc|ou oc su sc]; cbn [entry_step].
+  - eexists; split; [|apply INV0; reflexivity].
+    f_equal. f_equal. symmetry. apply dcore_same. subst R. reflexivity.
+  - eexists; split; [|apply INV0; reflexivity].
+    f_equal. f_equal. symmetry. apply dcore_same. subst R. reflexivity.
+  - (* ServiceCreated *)
+    set (T' := tstep T (EvServiceCreated ou oc su sc)).
+    apply legal_sc_inv in L as (L1 & L2 & _).
+    unfold with_service_created. eqb_case ou o; cbn [negb].
+    + subst ou. destruct (aget services su) as [v|] eqn:EV.
+      * (* a required service *)
+        assert (HIsu : In su R) by (apply Hkeys; eauto).
+        pose proof (HS _ _ EV) as Hv. rewrite L1 in Hv. cbn in Hv. subst v.
+        set (services' := aupd services su (Some sc)).
+        assert (HK' : map fst services' = R) by (unfold services'; now rewrite keys_aupd).
+        assert (HS' : forall s v, aget services' s = Some v ->
+                        v = option_map snd (sget (t_svcs T') o s)).
+        { intros s v. unfold services', T'. rewrite aget_aupd, sget_step_sc, EV. cbn [is_some].
+          rewrite N.eqb_refl. cbn [andb]. eqb_case su s.
+          - intros [= <-]. reflexivity.
+          - apply HS. }
+        assert (HB : forallb (fun p : uuid * option uuid => is_some (snd p)) services'
+                     = req_ok T' o oc R).
+        { apply bool_iff_eq. rewrite forallb_amap by (rewrite HK'; subst R; auto).
+          rewrite req_ok_true. split.
+          - intros H s HI. assert (HI' := HI). rewrite <- HK' in HI'.
+            apply key_aget_some in HI' as [v Hv]. pose proof (H _ _ Hv) as Hs. cbn in Hs.
+            pose proof (HS' _ _ Hv) as Hv'. subst v.
+            destruct (sget (t_svcs T') o s) as [[oc' sc']|] eqn:E'; [|discriminate].
+            exists sc'. f_equal. f_equal.
+            unfold T' in E'. rewrite sget_step_sc, N.eqb_refl in E'. cbn [andb] in E'.
+            eqb_case su s; [congruence|]. eapply L2; eauto.
+          - intros H s v Hv. cbn [snd]. pose proof (HS' _ _ Hv) as ->.
+            assert (HI : In s R) by (rewrite <- HK'; eapply aget_some_key; eauto).
+            destruct (H s HI) as [sc' ->]. reflexivity. }
+        assert (Hbefore : forall c, req_ok T o c R = false) by (intro; eapply req_ok_missing; eauto).
+        assert (Hcookie : cookie = None).
+        { destruct cookie as [c|]; auto. assert (req_ok T o c R = true) by now apply HC.
+          rewrite Hbefore in H. discriminate. }
+        assert (Hafter : forall c, req_ok T' o c R = true -> c = oc).
+        { intros c H. eapply req_ok_cookie with (s := su); eauto.
+          unfold T'. rewrite sget_step_sc, !N.eqb_refl. reflexivity. }
+        fold services'. rewrite HB. destruct (req_ok T' o oc R) eqn:EB.
+        -- eexists; split.
+           ++ f_equal. f_equal. symmetry. apply dcore_created with (u := o) (c := oc); auto; subst R.
+              ** rewrite mcore_with, Hbefore. apply andb_false_r.
+              ** rewrite mcore_with, N.eqb_refl. exact EB.
+           ++ subst R. cbn [Inv]. exists (Some oc), services'. repeat split; auto.
+              ** intros [= <-]. exact EB.
+              ** intro H. f_equal. symmetry. now apply Hafter.
+        -- eexists; split.
+           ++ f_equal. f_equal. symmetry. apply dcore_same. cbn [ev_obj]. subst R.
+              rewrite !mcore_with, Hbefore. fold T'. now rewrite EB.
+           ++ subst R cookie. cbn [Inv]. exists None, services'. repeat split; auto.
+              ** discriminate.
+              ** intro H. pose proof (Hafter _ H). subst c. congruence.
+      * (* not a required service *)
+        assert (HN : ~ In su R) by (intro HI; apply Hkeys in HI as [v Hv]; congruence).
+        assert (Hfr : forall s, In s R -> sget (t_svcs T') o s = sget (t_svcs T) o s).
+        { intros s HI. unfold T'. rewrite sget_step_sc. eqb_case su s; [congruence|].
+          now rewrite andb_false_r. }
+        eexists; split.
+        -- f_equal. f_equal. symmetry. apply dcore_same. cbn [ev_obj]. subst R. rewrite !mcore_with.
+           f_equal. now apply req_ok_frame.
+        -- subst R. cbn [Inv]. exists cookie, services. repeat split; auto.
+           ++ intros s v Hv. fold T'. rewrite Hfr; [auto|]. apply Hkeys; eauto.
+           ++ intro H. fold T'. rewrite (req_ok_frame T T'); auto. now apply HC.
+           ++ intro H. fold T' in H. rewrite (req_ok_frame T T') in H; auto. now apply HC.
+    + (* another object *)
+      assert (Hfr : forall s, sget (t_svcs T') o s = sget (t_svcs T) o s).
+      { intros s. unfold T'. rewrite sget_step_sc. apply N.eqb_neq in E. now rewrite E. }
+      eexists; split.
+      * f_equal. f_equal. symmetry. apply dcore_same. cbn [ev_obj]. subst R. rewrite !mcore_with.
+        rewrite (eqb_sym' o ou). apply N.eqb_neq in E. now rewrite E.
+      * subst R. cbn [Inv]. exists cookie, services. repeat split; auto.
+        -- intros s v Hv. fold T'. rewrite Hfr; auto.
+        -- intro H. fold T'. rewrite (req_ok_frame T T'); auto. now apply HC.
+        -- intro H. fold T' in H. rewrite (req_ok_frame T T') in H; auto. now apply HC.
+  - (* ServiceDestroyed *)
+    set (T' := tstep T (EvServiceDestroyed ou oc su sc)).
+    apply legal_sd_inv in L.
+    unfold with_service_destroyed. eqb_case ou o; cbn [negb].
+    + subst ou. destruct (aget services su) as [v|] eqn:EV.
+      * assert (HIsu : In su R) by (apply Hkeys; eauto).
+        pose proof (HS _ _ EV) as Hv. rewrite L in Hv. cbn in Hv. subst v.
+        cbn [opt_eqb]. rewrite N.eqb_refl.
+        set (services' := aupd services su None).
+        assert (HK' : map fst services' = R) by (unfold services'; now rewrite keys_aupd).
+        assert (HS' : forall s v, aget services' s = Some v ->
+                        v = option_map snd (sget (t_svcs T') o s)).
+        { intros s v. unfold services', T'. rewrite aget_aupd, sget_step_sd, EV. cbn [is_some].
+          rewrite N.eqb_refl. cbn [andb]. eqb_case su s.
+          - intros [= <-]. reflexivity.
+          - apply HS. }
+        assert (Hafter : forall c, req_ok T' o c R = false).
+        { intro c. eapply req_ok_missing; eauto. unfold T'. rewrite sget_step_sd, !N.eqb_refl. reflexivity. }
+        destruct cookie as [c'|].
+        -- assert (Hc : req_ok T o c' R = true) by now apply HC.
+           assert (c' = oc) by (eapply req_ok_cookie; eauto). subst c'.
+           eexists; split.
+           ++ f_equal. f_equal. symmetry. apply dcore_destroyed with (u := o) (c := oc); auto; subst R.
+              ** rewrite mcore_with, N.eqb_refl. exact Hc.
+              ** rewrite mcore_with. fold T'. rewrite Hafter. apply andb_false_r.
+           ++ subst R. cbn [Inv]. exists None, services'. repeat split; auto.
+              ** discriminate.
+              ** intro H. fold T' in H. rewrite Hafter in H. discriminate.
+        -- assert (Hb : req_ok T o oc R = false).
+           { destruct (req_ok T o oc R) eqn:EB; auto. apply HC in EB. discriminate. }
+           eexists; split.
+           ++ f_equal. f_equal. symmetry. apply dcore_same. cbn [ev_obj]. subst R.
+              rewrite !mcore_with. fold T'. now rewrite Hafter, Hb.
+           ++ subst R. cbn [Inv]. exists None, services'. repeat split; auto.
+              ** discriminate.
+              ** intro H. fold T' in H. rewrite Hafter in H. discriminate.
+      * assert (HN : ~ In su R) by (intro HI; apply Hkeys in HI as [v Hv]; congruence).
+        assert (Hfr : forall s, In s R -> sget (t_svcs T') o s = sget (t_svcs T) o s).
+        { intros s HI. unfold T'. rewrite sget_step_sd. eqb_case su s; [congruence|].
+          now rewrite andb_false_r. }
+        eexists; split.
+        -- f_equal. f_equal. symmetry. apply dcore_same. cbn [ev_obj]. subst R. rewrite !mcore_with.
+           f_equal. now apply req_ok_frame.
+        -- subst R. cbn [Inv]. exists cookie, services. repeat split; auto.
+           ++ intros s v Hv. fold T'. rewrite Hfr; [auto|]. apply Hkeys; eauto.
+           ++ intro H. fold T'. rewrite (req_ok_frame T T'); auto. now apply HC.
+           ++ intro H. fold T' in H. rewrite (req_ok_frame T T') in H; auto. now apply HC.
+    + assert (Hfr : forall s, sget (t_svcs T') o s = sget (t_svcs T) o s).
+      { intros s. unfold T'. rewrite sget_step_sd. apply N.eqb_neq in E. now rewrite E. }
+      eexists; split.
+      * f_equal. f_equal. symmetry. apply dcore_same. cbn [ev_obj]. subst R. rewrite !mcore_with.
+        rewrite (eqb_sym' o ou). apply N.eqb_neq in E. now rewrite E.
+      * subst R. cbn [Inv]. exists cookie, services. repeat split; auto.
+        -- intros s v Hv. fold T'. rewrite Hfr; auto.
+        -- intro H. fold T'. rewrite (req_ok_frame T T'); auto. now apply HC.
+        -- intro H. fold T' in H. rewrite (req_ok_frame T T') in H; auto. now apply HC.
+Qed.
+
+(* ---- kind 4: any object with services *)
+Lemma step_anyw : forall k r req T ev e,
+  NoDup (r :: req) -> legalb T ev = true -> Inv k None (r :: req) T e ->
+  exists e', entry_step e ev = Ok (e', dcore T ev k None (r :: req)) /\
+             Inv k None (r :: req) (tstep T ev) e'.
+Proof.
+  intros k r req T ev e ND L (services & created & -> & HK & NDC & HM & HC).
+  remember (r :: req) as R eqn:ER.
+  assert (Hkeys : forall s, In s R <-> exists v, aget services s = Some v).
+  { intro s. rewrite <- HK. split; [apply key_aget_some|intros [v H]; eapply aget_some_key; eauto]. }
+  assert (HrR : In r R) by (subst R; now left).
+  assert (INV0 : forall T', t_svcs T' = t_svcs T -> Inv k None R T' (EAny k services created)).
+  { intros T' ET. subst R. cbn [Inv]. exists services, created. repeat split; auto.
+    - intros s m H ou. rewrite ET. auto.
+    - intro H. rewrite (req_ok_svcs T T'); auto. now apply HC.
+    - intro H. rewrite (req_ok_svcs T T') in H; auto. now apply HC. }
+  assert (Hne : services <> []) by (intro; subst services R; discriminate).
+  (* stepping an entry of another object leaves [created] right *)
+  assert (FRAME : forall T' services' created' ou,
+            (forall u s, u <> ou -> sget (t_svcs T') u s = sget (t_svcs T) u s) ->
+            map fst services' = R -> NoDup (map fst created') ->
+            (forall s m, aget services' s = Some m ->
+               forall u, aget m u = option_map snd (sget (t_svcs T') u s)) ->
+            (forall u, u <> ou -> aget created' u = aget created u) ->
+            (forall c, aget created' ou = Some c <-> req_ok T' ou c R = true) ->
+            Inv k None R T' (EAny k services' created')).
+  { intros T' services' created' ou Hfr HK' NDC' HM' Hcr Hou. subst R. cbn [Inv].
+    exists services', created'. repeat split; auto.
+    - intro H. destruct (N.eq_dec u ou) as [->|Hne']; [now apply Hou|].
+      rewrite (req_ok_frame T T') by (intros; now apply Hfr). apply HC. now rewrite <- Hcr.
+    - intro H. destruct (N.eq_dec u ou) as [->|Hne']; [now apply Hou|].
+      rewrite (req_ok_frame T T') in H by (intros; now apply Hfr). rewrite Hcr; auto. now apply HC. }
+  destruct ev as [u c|u c|ou oc su sc|ou oc su sc]; cbn [entry_step].
+  - unfold any_object_created. destruct services as [|p services0]; [congruence|].
+    eexists; split; [|apply INV0; reflexivity].
+    f_equal. f_equal. symmetry. apply dcore_same. subst R. reflexivity.
+  - apply legal_od_inv in L as [_ L]. unfold any_object_destroyed.
+    destruct (aget created u) as [c'|] eqn:EC.
+    + exfalso. apply HC in EC. rewrite req_ok_true in EC. destruct (EC r HrR) as [sc E']. rewrite L in E'. discriminate.
+    + eexists; split; [|apply INV0; reflexivity].
+      f_equal. f_equal. symmetry. apply dcore_same. subst R. reflexivity.
+  - (* ServiceCreated *)
+    set (T' := tstep T (EvServiceCreated ou oc su sc)).
+    apply legal_sc_inv in L as (L1 & L2 & _).
+    assert (Hfr : forall u s, u <> ou -> sget (t_svcs T') u s = sget (t_svcs T) u s).
+    { intros u s Hu. unfold T'. rewrite sget_step_sc. eqb_case ou u; [congruence|reflexivity]. }
+    unfold any_service_created. destruct (aget services su) as [m|] eqn:EV.
+    + assert (HIsu : In su R) by (apply Hkeys; eauto).
+      pose proof (HM _ _ EV ou) as Hm. rewrite L1 in Hm. cbn in Hm. rewrite Hm.
+      set (services' := aupd services su (aset m ou sc)).
+      assert (HK' : map fst services' = R) by (unfold services'; now rewrite keys_aupd).
+      assert (HM' : forall s m', aget services' s = Some m' ->
+                      forall u, aget m' u = option_map snd (sget (t_svcs T') u s)).
+      { intros s m' Hs u. unfold services' in Hs. rewrite aget_aupd, EV in Hs. cbn [is_some] in Hs.
+        unfold T'. rewrite sget_step_sc. eqb_case su s.
+        - injection Hs as <-. rewrite aget_aset. rewrite andb_true_r.
+          eqb_case ou u; [reflexivity|]. apply HM. congruence.
+        - rewrite andb_false_r. now apply HM. }
+      assert (HB : forallb (fun p : uuid * list (uuid * uuid) => is_some (aget (snd p) ou)) services'
+                   = req_ok T' ou oc R).
+      { apply bool_iff_eq. rewrite forallb_amap by (rewrite HK'; subst R; auto).
+        rewrite req_ok_true. split.
+        - intros H s HI. assert (HI' := HI). rewrite <- HK' in HI'.
+          apply key_aget_some in HI' as [m' Hm']. pose proof (H _ _ Hm') as Hs. cbn [snd] in Hs.
+          rewrite (HM' _ _ Hm') in Hs.
+          destruct (sget (t_svcs T') ou s) as [[oc' sc']|] eqn:E'; [|discriminate].
+          exists sc'. f_equal. f_equal.
+          unfold T' in E'. rewrite sget_step_sc, N.eqb_refl in E'. cbn [andb] in E'.
+          eqb_case su s; [congruence|]. eapply L2; eauto.
+        - intros H s m' Hm'. cbn [snd]. rewrite (HM' _ _ Hm').
+          assert (HI : In s R) by (rewrite <- HK'; eapply aget_some_key; eauto).
+          destruct (H s HI) as [sc' ->]. reflexivity. }
+      assert (Hbefore : forall c, req_ok T ou c R = false) by (intro; eapply req_ok_missing; eauto).
+      assert (Hcr : aget created ou = None).
+      { destruct (aget created ou) as [c|] eqn:EC; auto. apply HC in EC. rewrite Hbefore in EC. discriminate. }
+      assert (Hafter : forall c, req_ok T' ou c R = true -> c = oc).
+      { intros c H. eapply req_ok_cookie with (s := su); eauto.
+        unfold T'. rewrite sget_step_sc, !N.eqb_refl. reflexivity. }
+      fold services'. rewrite HB. destruct (req_ok T' ou oc R) eqn:EB.
+      * rewrite Hcr. eexists; split.
+        -- f_equal. f_equal. symmetry. apply dcore_created with (u := ou) (c := oc); auto; subst R.
+           ++ rewrite mcore_any. apply Hbefore.
+           ++ rewrite mcore_any. exact EB.
+        -- apply FRAME with (ou := ou); auto.
+           ++ now apply nodup_aset.
+           ++ intros u Hu. rewrite aget_aset. eqb_case ou u; [congruence|reflexivity].
+           ++ intro c. rewrite aget_aset, N.eqb_refl. split.
+              ** intros [= <-]. exact EB.
+              ** intro H. f_equal. symmetry. now apply Hafter.
+      * eexists; split.
+        -- f_equal. f_equal. symmetry. apply dcore_same. cbn [ev_obj]. subst R.
+           rewrite !mcore_any, Hbefore. fold T'. now rewrite EB.
+        -- apply FRAME with (ou := ou); auto.
+           intro c. rewrite Hcr. split; [discriminate|].
+           intro H. pose proof (Hafter _ H). subst c. congruence.
+    + assert (HN : ~ In su R) by (intro HI; apply Hkeys in HI as [v Hv]; congruence).
+      assert (Hfr2 : forall u s, In s R -> sget (t_svcs T') u s = sget (t_svcs T) u s).
+      { intros u s HI. unfold T'. rewrite sget_step_sc. eqb_case su s; [congruence|].
+        now rewrite andb_false_r. }
+      eexists; split.
+      * f_equal. f_equal. symmetry. apply dcore_same. cbn [ev_obj]. subst R. rewrite !mcore_any.
+        apply req_ok_frame. intros; now apply Hfr2.
+      * apply FRAME with (ou := ou); auto.
+        -- intros s m Hs u. rewrite Hfr2; [now apply HM|]. apply Hkeys; eauto.
+        -- intro c. rewrite (req_ok_frame T T') by (intros; now apply Hfr2). apply HC.
+  - (* ServiceDestroyed *)
+    set (T' := tstep T (EvServiceDestroyed ou oc su sc)).
+    apply legal_sd_inv in L.
+    assert (Hfr : forall u s, u <> ou -> sget (t_svcs T') u s = sget (t_svcs T) u s).
+    { intros u s Hu. unfold T'. rewrite sget_step_sd. eqb_case ou u; [congruence|reflexivity]. }
+    unfold any_service_destroyed. destruct (aget services su) as [m|] eqn:EV.
+    + assert (HIsu : In su R) by (apply Hkeys; eauto).
+      pose proof (HM _ _ EV ou) as Hm. rewrite L in Hm. cbn in Hm. rewrite Hm.
+      cbn [opt_eqb]. rewrite N.eqb_refl.
+      set (services' := aupd services su (adel m ou)).
+      assert (HK' : map fst services' = R) by (unfold services'; now rewrite keys_aupd).
+      assert (HM' : forall s m', aget services' s = Some m' ->
+                      forall u, aget m' u = option_map snd (sget (t_svcs T') u s)).
+      { intros s m' Hs u. unfold services' in Hs. rewrite aget_aupd, EV in Hs. cbn [is_some] in Hs.
+        unfold T'. rewrite sget_step_sd. eqb_case su s.
+        - injection Hs as <-. rewrite aget_adel. rewrite andb_true_r.
+          eqb_case ou u; [reflexivity|]. apply HM. congruence.
+        - rewrite andb_false_r. now apply HM. }
+      assert (Hafter : forall c, req_ok T' ou c R = false).
+      { intro c. eapply req_ok_missing; eauto. unfold T'. rewrite sget_step_sd, !N.eqb_refl. reflexivity. }
+      destruct (aget created ou) as [c'|] eqn:EC.
+      * assert (Hc : req_ok T ou c' R = true) by now apply HC.
+        assert (c' = oc) by (eapply req_ok_cookie; eauto). subst c'.
+        rewrite N.eqb_refl. eexists; split.
+        -- f_equal. f_equal. symmetry. apply dcore_destroyed with (u := ou) (c := oc); auto; subst R.
+           ++ rewrite mcore_any. exact Hc.
+           ++ rewrite mcore_any. apply Hafter.
+        -- apply FRAME with (ou := ou); auto.
+           ++ now apply nodup_adel.
+           ++ intros u Hu. rewrite aget_adel. eqb_case ou u; [congruence|reflexivity].
+           ++ intro c. rewrite aget_adel, N.eqb_refl, Hafter. split; discriminate.
+      * assert (Hb : req_ok T ou oc R = false).
+        { destruct (req_ok T ou oc R) eqn:EB; auto. apply HC in EB. congruence. }
+        eexists; split.
+        -- f_equal. f_equal. symmetry. apply dcore_same. cbn [ev_obj]. subst R.
+           rewrite !mcore_any. fold T'. now rewrite Hafter, Hb.
+        -- apply FRAME with (ou := ou); auto.
+           intro c. rewrite EC, Hafter. split; discriminate.
+    + assert (HN : ~ In su R) by (intro HI; apply Hkeys in HI as [v Hv]; congruence).
+      assert (Hfr2 : forall u s, In s R -> sget (t_svcs T') u s = sget (t_svcs T) u s).
+      { intros u s HI. unfold T'. rewrite sget_step_sd. eqb_case su s; [congruence|].
+        now rewrite andb_false_r. }
+      eexists; split.
+      * f_equal. f_equal. symmetry. apply dcore_same. cbn [ev_obj]. subst R. rewrite !mcore_any.
+        apply req_ok_frame. intros; now apply Hfr2.
+      * apply FRAME with (ou := ou); auto.
+        -- intros s m Hs u. rewrite Hfr2; [now apply HM|]. apply Hkeys; eauto.
+        -- intro c. rewrite (req_ok_frame T T') by (intros; now apply Hfr2). apply HC.
+Qed.
+
+(* ------------------------------------------------------------------ all four kinds together *)
+Definition InvS (sp : espec) (T : truth) (e : entry) : Prop :=
+  Inv (sp_key sp) (sp_obj sp) (sp_req sp) T e.
+
+Lemma step_ok : forall sp T ev e,
+  legalb T ev = true -> InvS sp T e ->
+  exists e', entry_step e ev = Ok (e', delta T ev sp) /\ InvS sp (tstep T ev) e'.
+Proof.
+  intros sp T ev e L I. unfold InvS in *. rewrite delta_dcore.
+  pose proof (dedup_nodup (sp_svcs sp)) as ND. fold (sp_req sp) in ND.
+  destruct (sp_obj sp) as [o|]; destruct (sp_req sp) as [|r req].
+  - now apply step_without.
+  - now apply step_with.
+  - now apply step_any0.
+  - now apply step_anyw.
+Qed.
+
+Lemma entry_run_ok_from : forall sp l T e,
+  deliverable_from T l = true -> InvS sp T e ->
+  exists e', entry_run e l = Ok (e', transitions T l sp) /\ InvS sp (trun T l) e'.
+Proof.
+  intros sp l. induction l as [|ev l IH]; intros T e D I.
+  - exists e. split; auto.
+  - cbn [deliverable_from] in D. apply andb_true_iff in D as [L D].
+    destruct (step_ok sp T ev e L I) as (e1 & E1 & I1).
+    destruct (IH _ _ D I1) as (e2 & E2 & I2).
+    exists e2. split; auto.
+    cbn [entry_run transitions]. rewrite E1. cbn [bind fst snd]. rewrite E2. reflexivity.
+Qed.
+
+Lemma aget_map_const' : forall {V} (l : list uuid) (v : V) k w,
+  aget (map (fun s => (s, v)) l) k = Some w -> w = v.
+Proof.
+  intros V l v k w. rewrite aget_map_const. destruct (existsb (N.eqb k) l); congruence.
+Qed.
+
+Lemma inv_new : forall sp, InvS sp t_empty (entry_new sp).
+Proof.
+  intros sp. unfold InvS, entry_new.
+  destruct (sp_obj sp) as [o|]; destruct (sp_req sp) as [|r req] eqn:ER; cbn [Inv].
+  - reflexivity.
+  - exists None, (map (fun s => (s, None)) (r :: req)). repeat split; auto.
+    + rewrite map_map. cbn [fst]. apply map_id.
+    + intros s v H. apply aget_map_const' in H. subst v. reflexivity.
+    + discriminate.
+    + intro H. rewrite (req_ok_missing t_empty o c (r :: req) r) in H; [discriminate|now left|reflexivity].
+  - exists []. repeat split; auto. constructor.
+  - exists (map (fun s => (s, [])) (r :: req)), []. repeat split; auto.
+    + rewrite map_map. cbn [fst]. apply map_id.
+    + constructor.
+    + intros s m H ou. apply aget_map_const' in H. subst m. reflexivity.
+    + discriminate.
+    + intro H. rewrite (req_ok_missing t_empty u c (r :: req) r) in H; [discriminate|now left|reflexivity].
+Qed.
+
+(* the fold of a deliverable sequence from a fresh entry *)
+Lemma entry_run_ok : forall sp l,
+  deliverable l ->
+  exists e, entry_run (entry_new sp) l = Ok (e, transitions t_empty l sp) /\
+            InvS sp (trun t_empty l) e.
+Proof. intros sp l D. apply entry_run_ok_from; auto. apply inv_new. Qed.
+
+(* ------------------------------------------------------------------ the view *)
+Lemma inv_view : forall sp T e, InvS sp T e ->
+  (forall u c, In (u, c) (entry_iter e) <-> matchingb T sp u c = true) /\
+  NoDup (map fst (entry_iter e)).
+Proof.
+  intros sp T e I. unfold InvS in I.
+  assert (HM : forall u c, matchingb T sp u c = mcore T (sp_obj sp) (sp_req sp) u c)
+    by (intros; apply matchingb_mcore).
+  destruct (sp_obj sp) as [o|]; destruct (sp_req sp) as [|r req]; cbn [Inv] in I.
+  - subst e. cbn [entry_iter]. split.
+    + intros u c. rewrite HM. unfold mcore. cbn [opt_matches].
+      destruct (aget (t_objs T) o) as [c'|] eqn:EO.
+      * cbn [In]. split.
+        -- intros [[= <- <-]|[]]. rewrite N.eqb_refl, EO. cbn. apply N.eqb_refl.
+        -- intro H. apply andb_true_iff in H as [H1 H2]. apply N.eqb_eq in H1. subst u.
+           rewrite EO in H2. apply opt_eqb_true in H2. injection H2 as <-. now left.
+      * cbn [In]. split; [tauto|]. intro H. apply andb_true_iff in H as [H1 H2].
+        apply N.eqb_eq in H1. subst u. rewrite EO in H2. discriminate.
+    + destruct (aget (t_objs T) o); cbn; repeat constructor; auto.
+  - destruct I as (cookie & services & -> & HK & HS & HC). cbn [entry_iter]. split.
+    + intros u c. rewrite HM, mcore_with. destruct cookie as [c'|].
+      * cbn [In]. split.
+        -- intros [[= <- <-]|[]]. rewrite N.eqb_refl. now apply HC.
+        -- intro H. apply andb_true_iff in H as [H1 H2]. apply N.eqb_eq in H1. subst u.
+           apply HC in H2. injection H2 as <-. now left.
+      * cbn [In]. split; [tauto|]. intro H. apply andb_true_iff in H as [H1 H2].
+        apply N.eqb_eq in H1. subst u. apply HC in H2. discriminate.
+    + destruct cookie; cbn; repeat constructor; auto.
+  - destruct I as (created & -> & ND & HC). cbn [entry_iter]. split; auto.
+    intros u c. rewrite HM. unfold mcore. cbn [opt_matches andb]. rewrite <- HC, opt_eqb_true. split.
+    + now apply in_aget.
+    + apply aget_in.
+  - destruct I as (services & created & -> & HK & ND & HMM & HC). cbn [entry_iter]. split; auto.
+    intros u c. rewrite HM, mcore_any, <- HC. split.
+    + now apply in_aget.
+    + apply aget_in.
+Qed.
+
+(* object_id(u) answers the current cookie of the matching object, if any; it panics only when a
+   specific-object entry is asked about another UUID (the documented assert_eq!) *)
+Lemma inv_object_id : forall sp T e u, InvS sp T e -> opt_matches (sp_obj sp) u = true ->
+  exists r, entry_object_id e u = Ok r /\ forall c, r = Some c <-> matchingb T sp u c = true.
+Proof.
+  intros sp T e u I OM. unfold InvS in I.
+  assert (HM : forall c, matchingb T sp u c = mcore T (sp_obj sp) (sp_req sp) u c)
+    by (intros; apply matchingb_mcore).
+  destruct (sp_obj sp) as [o|]; destruct (sp_req sp) as [|r req]; cbn [Inv] in I; cbn [opt_matches] in OM.
+  - apply N.eqb_eq in OM. subst e u. cbn [entry_object_id]. rewrite N.eqb_refl.
+    eexists; split; eauto. intro c. rewrite HM. unfold mcore. cbn [opt_matches]. rewrite N.eqb_refl.
+    cbn [andb]. now rewrite opt_eqb_true.
+  - apply N.eqb_eq in OM. subst u. destruct I as (cookie & services & -> & HK & HS & HC).
+    cbn [entry_object_id]. rewrite N.eqb_refl. eexists; split; eauto.
+    intro c. rewrite HM, mcore_with, N.eqb_refl. apply HC.
+  - destruct I as (created & -> & ND & HC). cbn [entry_object_id]. eexists; split; eauto.
+    intro c. rewrite HM. unfold mcore. cbn [opt_matches andb]. now rewrite opt_eqb_true, HC.
+  - destruct I as (services & created & -> & HK & ND & HMM & HC). cbn [entry_object_id].
+    eexists; split; eauto. intro c. rewrite HM, mcore_any. apply HC.
+Qed.
+
+(* service_id(u, s) of a found object and a required service: the ids currently on the bus *)
+Lemma inv_service_id : forall sp T e u c s, InvS sp T e ->
+  matchingb T sp u c = true -> In s (sp_req sp) ->
+  exists sc, entry_service_id e u s = Ok (Some (c, sc)) /\ sget (t_svcs T) u s = Some (c, sc).
+Proof.
+  intros sp T e u c s I M HI. unfold InvS in I. rewrite matchingb_mcore in M.
+  destruct (sp_obj sp) as [o|]; destruct (sp_req sp) as [|r req]; cbn [Inv] in I; try (now destruct HI).
+  - destruct I as (cookie & services & -> & HK & HS & HC).
+    rewrite mcore_with in M. apply andb_true_iff in M as [M1 M2]. apply N.eqb_eq in M1. subst u.
+    pose proof M2 as M2'. apply HC in M2'. subst cookie.
+    rewrite req_ok_true in M2. destruct (M2 s HI) as [sc Esc].
+    exists sc. split; auto. cbn [entry_service_id]. rewrite N.eqb_refl.
+    assert (HIk : In s (map fst services)) by now rewrite HK.
+    apply key_aget_some in HIk as [v Hv]. rewrite Hv. rewrite (HS _ _ Hv), Esc. reflexivity.
+  - destruct I as (services & created & -> & HK & ND & HMM & HC).
+    rewrite mcore_any in M. pose proof M as M'. apply HC in M'.
+    rewrite req_ok_true in M. destruct (M s HI) as [sc Esc].
+    exists sc. split; auto. cbn [entry_service_id]. rewrite M'.
+    assert (HIk : In s (map fst services)) by now rewrite HK.
+    apply key_aget_some in HIk as [m Hm]. rewrite Hm. rewrite (HMM _ _ Hm), Esc. reflexivity.
+Qed.
+
+(* ------------------------------------------------------------------ delta is the only change *)
+Lemma mcore_frame : forall T ev obj req u c,
+  NoDup req -> legalb T ev = true -> (u, c) <> ev_obj ev ->
+  mcore (tstep T ev) obj req u c = mcore T obj req u c.
+Proof.
+  intros T ev obj req u c ND L NE. unfold mcore. f_equal.
+  destruct ev as [u0 c0|u0 c0|ou oc su sc|ou oc su sc]; cbn [ev_obj] in NE.
+  - destruct req; [|reflexivity]. apply legal_oc_inv in L as [L _].
+    cbn [tstep t_objs]. rewrite aget_cons. eqb_case u0 u; auto. subst u0. rewrite L.
+    cbn. apply N.eqb_neq. congruence.
+  - destruct req; [|reflexivity]. apply legal_od_inv in L as [L _].
+    cbn [tstep t_objs]. rewrite aget_adel. eqb_case u0 u; auto. subst u0. rewrite L.
+    cbn. symmetry. apply N.eqb_neq. congruence.
+  - destruct req as [|r req]; [reflexivity|]. remember (r :: req) as R.
+    apply legal_sc_inv in L as (L1 & L2 & _).
+    set (T' := tstep T (EvServiceCreated ou oc su sc)).
+    destruct (in_dec N.eq_dec su R) as [HI|HN].
+    + eqb_case ou u.
+      * subst ou. assert (c <> oc) by congruence.
+        rewrite (req_ok_missing T u c R su); auto.
+        destruct (req_ok T' u c R) eqn:EB; auto. exfalso. apply H.
+        eapply req_ok_cookie with (s := su); eauto. unfold T'. rewrite sget_step_sc, !N.eqb_refl. reflexivity.
+      * apply req_ok_frame. intros s _. unfold T'. rewrite sget_step_sc.
+        apply N.eqb_neq in E. now rewrite E.
+    + apply req_ok_frame. intros s HI. unfold T'. rewrite sget_step_sc.
+      eqb_case su s; [subst; tauto|]. now rewrite andb_false_r.
+  - destruct req as [|r req]; [reflexivity|]. remember (r :: req) as R.
+    apply legal_sd_inv in L.
+    set (T' := tstep T (EvServiceDestroyed ou oc su sc)).
+    destruct (in_dec N.eq_dec su R) as [HI|HN].
+    + eqb_case ou u.
+      * subst ou. assert (c <> oc) by congruence.
+        rewrite (req_ok_missing T' u c R su); auto.
+        -- destruct (req_ok T u c R) eqn:EB; auto. exfalso. apply H. eapply req_ok_cookie; eauto.
+        -- unfold T'. rewrite sget_step_sd, !N.eqb_refl. reflexivity.
+      * apply req_ok_frame. intros s _. unfold T'. rewrite sget_step_sd.
+        apply N.eqb_neq in E. now rewrite E.
+    + apply req_ok_frame. intros s HI. unfold T'. rewrite sget_step_sd.
+      eqb_case su s; [subst; tauto|]. now rewrite andb_false_r.
+Qed.
+
+Lemma delta_frame : forall T ev sp u c,
+  legalb T ev = true -> (u, c) <> ev_obj ev ->
+  matchingb (tstep T ev) sp u c = matchingb T sp u c.
+Proof.
+  intros. rewrite !matchingb_mcore. apply mcore_frame; auto. apply dedup_nodup.
+Qed.
+
+(* what delta says about the event's own object *)
+Lemma delta_spec : forall T ev sp u c, ev_obj ev = (u, c) ->
+  delta T ev sp =
+    match matchingb T sp u c, matchingb (tstep T ev) sp u c with
+    | false, true => Some (mkDev (sp_key sp) Created u c)
+    | true, false => Some (mkDev (sp_key sp) Destroyed u c)
+    | _, _ => None
+    end.
+Proof. intros T ev sp u c E. unfold delta. now rewrite E. Qed.
+
+(* ------------------------------------------------------------------ restart *)
+Lemma map_const_aupd : forall {V W} (m : list (uuid * V)) k v (d : W),
+  map (fun p => (fst p, d)) (aupd m k v) = map (fun p => (fst p, d)) m.
+Proof.
+  induction m as [|[a w] m IH]; intros; auto.
+  rewrite aupd_cons. cbn [map]. rewrite IH. now destruct (N.eqb a k).
+Qed.
+
+Lemma step_reset : forall e ev e' d, entry_step e ev = Ok (e', d) -> entry_reset e' = entry_reset e.
+Proof.
+  intros e ev e' d H.
+  destruct e as [k services created|k o cookie services|k o cookie];
+    destruct ev as [u c|u c|ou oc su sc|ou oc su sc]; cbn [entry_step] in H.
+  - unfold any_object_created in H. destruct services.
+    + destruct (aget created u); [discriminate|]. now injection H as <- _.
+    + now injection H as <- _.
+  - unfold any_object_destroyed in H. destruct (aget created u).
+    + destruct (N.eqb u0 c); [|discriminate]. now injection H as <- _.
+    + now injection H as <- _.
+  - unfold any_service_created in H. destruct (aget services su) as [m|]; [|now injection H as <- _].
+    destruct (aget m ou); [discriminate|].
+    destruct (forallb _ _).
+    + destruct (aget created ou); [discriminate|]. injection H as <- _. cbn [entry_reset].
+      now rewrite map_const_aupd.
+    + injection H as <- _. cbn [entry_reset]. now rewrite map_const_aupd.
+  - unfold any_service_destroyed in H. destruct (aget services su) as [m|]; [|now injection H as <- _].
+    destruct (opt_eqb _ _); [|discriminate].
+    destruct (aget created ou).
+    + destruct (N.eqb u oc); [|discriminate]. injection H as <- _. cbn [entry_reset].
+      now rewrite map_const_aupd.
+    + injection H as <- _. cbn [entry_reset]. now rewrite map_const_aupd.
+  - now injection H as <- _.
+  - now injection H as <- _.
+  - unfold with_service_created in H. destruct (negb _); [now injection H as <- _|].
+    destruct (aget services su) as [[x|]|]; [discriminate| |now injection H as <- _].
+    destruct (forallb _ _); injection H as <- _; cbn [entry_reset]; now rewrite map_const_aupd.
+  - unfold with_service_destroyed in H. destruct (negb _); [now injection H as <- _|].
+    destruct (aget services su) as [x|]; [|now injection H as <- _].
+    destruct (opt_eqb _ _); [|discriminate].
+    destruct cookie; injection H as <- _; cbn [entry_reset]; now rewrite map_const_aupd.
+  - unfold without_object_created in H. destruct (negb _); [now injection H as <- _|].
+    destruct cookie; [discriminate|]. now injection H as <- _.
+  - unfold without_object_destroyed in H. destruct (negb _); [now injection H as <- _|].
+    destruct (opt_eqb _ _); [|discriminate]. now injection H as <- _.
+  - now injection H as <- _.
+  - now injection H as <- _.
+Qed.
+
+Lemma run_reset : forall l e e' evs, entry_run e l = Ok (e', evs) -> entry_reset e' = entry_reset e.
+Proof.
+  induction l as [|ev l IH]; intros e e' evs H; cbn [entry_run] in H.
+  - now injection H as <- _.
+  - destruct (entry_step e ev) as [[e1 d]|] eqn:E1; cbn [bind] in H; [|discriminate].
+    cbn [fst snd] in H. destruct (entry_run e1 l) as [[e2 evs2]|] eqn:E2; cbn [bind] in H; [|discriminate].
+    injection H as <- _. cbn [fst]. rewrite (IH _ _ _ E2). eapply step_reset; eauto.
+Qed.
+
+Lemma reset_new_id : forall sp, entry_reset (entry_new sp) = entry_new sp.
+Proof.
+  intros sp. unfold entry_new. destruct (sp_obj sp); destruct (sp_req sp); cbn [entry_reset]; auto;
+    now rewrite map_map.
+Qed.
+
+(* whatever the entry went through (and whatever it still had queued), reset gives back the
+   entry DiscovererBuilder::add made *)
+Lemma reset_new : forall sp l e evs,
+  entry_run (entry_new sp) l = Ok (e, evs) -> entry_reset e = entry_new sp.
+Proof. intros sp l e evs H. rewrite (run_reset _ _ _ _ H). apply reset_new_id. Qed.
+
+(* ------------------------------------------------------------------ service_ids *)
+Lemma dedup_nil : forall l, dedup l = [] -> l = [].
+Proof.
+  intros [|a l] H; auto. exfalso.
+  assert (HI : In a (dedup (a :: l))) by (apply dedup_in; now left). rewrite H in HI. destruct HI.
+Qed.
+
+Lemma mapM_ok : forall {A B} (f : A -> res B) (P : A -> B -> Prop) ss,
+  (forall s, In s ss -> exists p, f s = Ok p /\ P s p) ->
+  exists l, mapM f ss = Ok l /\ Forall2 P ss l.
+Proof.
+  intros A B f P. induction ss as [|s ss IH]; intros H.
+  - exists []. split; auto.
+  - destruct (H s (or_introl eq_refl)) as (p & Ep & Pp).
+    destruct IH as (l & El & Fl). { intros s' HI. apply H. now right. }
+    exists (p :: l). split; [|now constructor].
+    cbn [mapM]. rewrite Ep. cbn [bind]. rewrite El. reflexivity.
+Qed.
+
+Lemma matching_opt : forall T sp u c, matchingb T sp u c = true -> opt_matches (sp_obj sp) u = true.
+Proof. intros T sp u c H. unfold matchingb in H. now apply andb_true_iff in H as [H _]. Qed.
+
+(* service_ids(u, services as given to add): the current ids, in the order asked *)
+Lemma inv_service_ids : forall sp T e u c, InvS sp T e -> matchingb T sp u c = true ->
+  exists ids, entry_service_ids e u (sp_svcs sp) = Ok (Some ids) /\
+    Forall2 (fun s p => fst p = c /\ sget (t_svcs T) u s = Some p) (sp_svcs sp) ids.
+Proof.
+  intros sp T e u c I M.
+  assert (HIN : forall s, In s (sp_svcs sp) -> In s (sp_req sp)) by (intros; now apply dedup_in).
+  destruct (inv_object_id sp T e u I (matching_opt _ _ _ _ M)) as (r & Er & Hr).
+  assert (r = Some c) by now apply Hr. subst r.
+  destruct (mapM_ok
+    (fun s => bind (entry_service_id e u s)
+       (fun r => match r with Some p => Ok p | None => Panic QueryUnwrapNone end))
+    (fun s p => fst p = c /\ sget (t_svcs T) u s = Some p) (sp_svcs sp)) as (ids & Eids & Fids).
+  { intros s HI. destruct (inv_service_id sp T e u c s I M (HIN s HI)) as (sc & E1 & E2).
+    exists (c, sc). rewrite E1. cbn. auto. }
+  exists ids. split; auto.
+  destruct e as [k services created|k o cookie services|k o cookie].
+  - unfold entry_service_ids. rewrite Er. cbn [bind]. rewrite Eids. reflexivity.
+  - unfold entry_service_ids. rewrite Er. cbn [bind]. rewrite Eids. reflexivity.
+  - (* a bare object: the service list is empty *)
+    unfold InvS in I. destruct (sp_obj sp) as [o'|] eqn:EO; destruct (sp_req sp) as [|r req] eqn:ER;
+      cbn [Inv] in I.
+    + injection I as -> -> ->. apply dedup_nil in ER. rewrite ER in *. inversion Fids; subst.
+      cbn [entry_service_ids]. apply matching_opt in M. rewrite EO in M. cbn in M.
+      rewrite (eqb_sym' u o'), M. reflexivity.
+    + destruct I as (? & ? & [=] & _).
+    + destruct I as (? & [=] & _).
+    + destruct I as (? & ? & [=] & _).
+Qed.
+
+(* ------------------------------------------------------------------ first event: find / wait *)
+Lemma transitions_app : forall l1 l2 T sp,
+  transitions T (l1 ++ l2) sp = transitions T l1 sp ++ transitions (trun T l1) l2 sp.
+Proof.
+  induction l1 as [|ev l1 IH]; intros; cbn [transitions app]; auto.
+  rewrite IH, app_assoc. reflexivity.
+Qed.
+
+Lemma olist_nil : forall {A} (o : option A) l, olist o ++ l = [] -> o = None /\ l = [].
+Proof. intros A [a|] l H; cbn in H; [discriminate|auto]. Qed.
+
+Lemma empty_step : forall T ev sp,
+  (forall u c, matchingb T sp u c = false) -> legalb T ev = true -> delta T ev sp = None ->
+  forall u c, matchingb (tstep T ev) sp u c = false.
+Proof.
+  intros T ev sp HE L D u c.
+  destruct (ev_obj ev) as [u0 c0] eqn:EO.
+  destruct (N.eq_dec u u0) as [->|Hu]; [destruct (N.eq_dec c c0) as [->|Hc]|].
+  - rewrite (delta_spec _ _ _ _ _ EO), HE in D. destruct (matchingb (tstep T ev) sp u0 c0); [discriminate|auto].
+  - rewrite delta_frame; auto. rewrite EO. congruence.
+  - rewrite delta_frame; auto. rewrite EO. congruence.
+Qed.
+
+Lemma empty_stays : forall l T sp,
+  (forall u c, matchingb T sp u c = false) -> deliverable_from T l = true ->
+  transitions T l sp = [] -> forall u c, matchingb (trun T l) sp u c = false.
+Proof.
+  induction l as [|ev l IH]; intros T sp HE D HT; auto.
+  cbn [deliverable_from] in D. apply andb_true_iff in D as [L D].
+  cbn [transitions] in HT. apply olist_nil in HT as [HD HT].
+  cbn [trun fold_left]. apply IH; auto. now apply empty_step.
+Qed.
+
+Lemma matching_empty : forall sp u c, matchingb t_empty sp u c = false.
+Proof.
+  intros. rewrite matchingb_mcore. unfold mcore. destruct (sp_req sp) as [|r req].
+  - cbn. apply andb_false_r.
+  - rewrite (req_ok_missing t_empty u c (r :: req) r); [apply andb_false_r|now left|reflexivity].
+Qed.
+
+Lemma no_match_no_trans : forall l T sp,
+  (forall l1 l2, l = l1 ++ l2 -> forall u c, matchingb (trun T l1) sp u c = false) ->
+  transitions T l sp = [].
+Proof.
+  induction l as [|ev l IH]; intros T sp H; auto.
+  cbn [transitions].
+  assert (delta T ev sp = None) as ->.
+  { unfold delta. destruct (ev_obj ev) as [u c].
+    pose proof (H [] (ev :: l) eq_refl u c) as H0. pose proof (H [ev] l eq_refl u c) as H1.
+    cbn [trun fold_left] in H0, H1. now rewrite H0, H1. }
+  cbn [olist app]. apply IH. intros l1 l2 E u c. subst l.
+  apply (H (ev :: l1) l2 eq_refl).
+Qed.
+
+Lemma entry_next_ok : forall sp l T e,
+  deliverable_from T l = true -> InvS sp T e ->
+  (transitions T l sp = [] /\ entry_next e l = Ok None) \/
+  (exists l1 ev rest d e',
+     l = l1 ++ ev :: rest /\ transitions T l1 sp = [] /\ delta (trun T l1) ev sp = Some d /\
+     entry_next e l = Ok (Some (d, e', rest)) /\ InvS sp (trun T (l1 ++ [ev])) e').
+Proof.
+  intros sp l. induction l as [|ev l IH]; intros T e D I.
+  - left. split; reflexivity.
+  - cbn [deliverable_from] in D. apply andb_true_iff in D as [L D].
+    destruct (step_ok sp T ev e L I) as (e1 & E1 & I1).
+    cbn [entry_next transitions]. rewrite E1. cbn [bind fst snd].
+    destruct (delta T ev sp) as [d|] eqn:ED.
+    + right. exists [], ev, l, d, e1. repeat split; auto.
+    + destruct (IH _ _ D I1) as [[HT HN]|(l1 & ev' & rest & d & e' & -> & HT & HD & HN & I')].
+      * left. split; auto.
+      * right. exists (ev :: l1), ev', rest, d, e'. repeat split; auto.
+        cbn [transitions]. now rewrite ED, HT.
+Qed.
+
+(* Handle::find_object / wait_for_object on any deliverable sequence: never a panic; either no
+   matching object existed at any point, or the answer is the first object that matched, with
+   the service ids it carried at that moment *)
+Lemma find_object_ok : forall sp l, deliverable l ->
+  (find_object sp l = Ok None /\
+   forall l1 l2, l = l1 ++ l2 -> forall u c, matchingb (trun t_empty l1) sp u c = false) \/
+  (exists l1 ev rest u c ids,
+     l = l1 ++ ev :: rest /\ find_object sp l = Ok (Some (u, c, ids)) /\
+     (forall l0 l0', l1 = l0 ++ l0' -> forall u' c', matchingb (trun t_empty l0) sp u' c' = false) /\
+     matchingb (trun t_empty (l1 ++ [ev])) sp u c = true /\
+     Forall2 (fun s p => fst p = c /\ sget (t_svcs (trun t_empty (l1 ++ [ev]))) u s = Some p)
+             (sp_svcs sp) ids).
+Proof.
+  intros sp l D. unfold deliverable, deliverableb in D.
+  destruct (entry_next_ok sp l t_empty (entry_new sp) D (inv_new sp))
+    as [[HT HN]|(l1 & ev & rest & d & e' & -> & HT & HD & HN & I')].
+  - left. split; [unfold find_object; now rewrite HN|].
+    intros l1 l2 -> u c. rewrite deliverable_app in D. apply andb_true_iff in D as [D1 _].
+    rewrite transitions_app in HT. apply app_eq_nil in HT as [HT _].
+    apply empty_stays; auto. apply matching_empty.
+  - right.
+    rewrite deliverable_app in D. apply andb_true_iff in D as [D1 D2].
+    cbn [deliverable_from] in D2. apply andb_true_iff in D2 as [L _].
+    assert (HE : forall l0 l0', l1 = l0 ++ l0' ->
+               forall u' c', matchingb (trun t_empty l0) sp u' c' = false).
+    { intros l0 l0' -> u' c'. rewrite deliverable_app in D1. apply andb_true_iff in D1 as [D0 _].
+      rewrite transitions_app in HT. apply app_eq_nil in HT as [HT _].
+      apply empty_stays; auto. apply matching_empty. }
+    destruct (ev_obj ev) as [u c] eqn:EO.
+    rewrite (delta_spec _ _ _ _ _ EO) in HD.
+    rewrite (HE l1 [] (eq_sym (app_nil_r l1))) in HD.
+    destruct (matchingb (tstep (trun t_empty l1) ev) sp u c) eqn:EM; [|discriminate].
+    injection HD as <-.
+    assert (EM' : matchingb (trun t_empty (l1 ++ [ev])) sp u c = true) by (now rewrite trun_app).
+    destruct (inv_service_ids sp _ e' u c I' EM') as (ids & Eids & Fids).
+    exists l1, ev, rest, u, c, ids. repeat split; auto.
+    unfold find_object. rewrite HN. cbn [bind de_kind de_u de_c]. rewrite Eids. reflexivity.
+Qed.
+
+(* creations only (the current-entities phase): what matched keeps matching *)
+Lemma creation_mono_step : forall T ev sp u c,
+  is_creation ev = true -> legalb T ev = true ->
+  matchingb T sp u c = true -> matchingb (tstep T ev) sp u c = true.
+Proof.
+  intros T ev sp u c C L M. rewrite matchingb_mcore in *. unfold mcore in *.
+  apply andb_true_iff in M as [M1 M2]. rewrite M1. cbn [andb].
+  destruct ev as [u0 c0|u0 c0|ou oc su sc|ou oc su sc]; try discriminate.
+  - destruct (sp_req sp); [|exact M2]. apply legal_oc_inv in L as [L _].
+    cbn [tstep t_objs]. rewrite aget_cons. eqb_case u0 u; auto. subst. rewrite L in M2. discriminate.
+  - destruct (sp_req sp) as [|r req]; [exact M2|]. apply legal_sc_inv in L as (L1 & _).
+    rewrite req_ok_true in *. intros s HI. destruct (M2 s HI) as [sc' E']. exists sc'.
+    rewrite sget_step_sc. destruct (N.eqb ou u && N.eqb su s) eqn:EK; auto.
+    apply andb_true_iff in EK as [K1 K2]. apply N.eqb_eq in K1, K2. subst. congruence.
+Qed.
+
+Lemma creation_mono : forall l T sp u c,
+  forallb is_creation l = true -> deliverable_from T l = true ->
+  matchingb T sp u c = true -> matchingb (trun T l) sp u c = true.
+Proof.
+  induction l as [|ev l IH]; intros T sp u c C D M; auto.
+  cbn [forallb] in C. apply andb_true_iff in C as [C1 C2].
+  cbn [deliverable_from] in D. apply andb_true_iff in D as [L D].
+  cbn [trun fold_left]. apply IH; auto. now apply creation_mono_step.
+Qed.
+
+Lemma creation_sget_mono : forall l T u s p,
+  forallb is_creation l = true -> deliverable_from T l = true ->
+  sget (t_svcs T) u s = Some p -> sget (t_svcs (trun T l)) u s = Some p.
+Proof.
+  induction l as [|ev l IH]; intros T u s p C D M; auto.
+  cbn [forallb] in C. apply andb_true_iff in C as [C1 C2].
+  cbn [deliverable_from] in D. apply andb_true_iff in D as [L D].
+  cbn [trun fold_left]. apply IH; auto.
+  destruct ev as [u0 c0|u0 c0|ou oc su sc|ou oc su sc]; try discriminate; auto.
+  apply legal_sc_inv in L as (L1 & _). rewrite sget_step_sc.
+  destruct (N.eqb ou u && N.eqb su s) eqn:EK; auto.
+  apply andb_true_iff in EK as [K1 K2]. apply N.eqb_eq in K1, K2. subst. congruence.
+Qed.
+
+Lemma Forall2_imp : forall {A B} (P Q : A -> B -> Prop) l l',
+  (forall a b, P a b -> Q a b) -> Forall2 P l l' -> Forall2 Q l l'.
+Proof. intros A B P Q l l' H F. induction F; constructor; auto. Qed.
+
+(* find_object over the snapshot the broker sends for a `Current` listener *)
+Lemma find_current_ok : forall sp cur, deliverable cur -> forallb is_creation cur = true ->
+  (find_object sp cur = Ok None /\ forall u c, matchingb (trun t_empty cur) sp u c = false) \/
+  (exists u c ids, find_object sp cur = Ok (Some (u, c, ids)) /\
+     matchingb (trun t_empty cur) sp u c = true /\
+     Forall2 (fun s p => fst p = c /\ sget (t_svcs (trun t_empty cur)) u s = Some p) (sp_svcs sp) ids).
+Proof.
+  intros sp cur D C.
+  destruct (find_object_ok sp cur D) as [[HN HE]|(l1 & ev & rest & u & c & ids & -> & HF & HE & HM & HI)].
+  - left. split; auto. apply (HE cur [] (eq_sym (app_nil_r cur))).
+  - right. exists u, c, ids. split; auto.
+    unfold deliverable, deliverableb in D.
+    replace (l1 ++ ev :: rest) with ((l1 ++ [ev]) ++ rest) in * by (now rewrite <- app_assoc).
+    rewrite deliverable_app in D. apply andb_true_iff in D as [D1 D2].
+    rewrite forallb_app in C. apply andb_true_iff in C as [C1 C2].
+    rewrite trun_app. split.
+    + now apply creation_mono.
+    + eapply Forall2_imp; [|exact HI]. intros s p [P1 P2]. split; auto.
+      now apply creation_sget_mono.
+Qed.
+
+(* ------------------------------------------------------------------ several entries (Discoverer) *)
+Fixpoint dtransitions (T : truth) (l : list bus_event) (sps : list espec) : list devent :=
+  match l with
+  | [] => []
+  | ev :: l' => flat_map (fun sp => olist (delta T ev sp)) sps ++ dtransitions (tstep T ev) l' sps
+  end.
+
+Lemma disc_step_ok : forall T ev sps es,
+  legalb T ev = true -> Forall2 (fun sp e => InvS sp T e) sps es ->
+  exists es', disc_step es ev = Ok (es', flat_map (fun sp => olist (delta T ev sp)) sps) /\
+              Forall2 (fun sp e => InvS sp (tstep T ev) e) sps es'.
+Proof.
+  intros T ev sps es L F. induction F as [|sp e sps es I F IH].
+  - exists []. split; auto.
+  - destruct (step_ok sp T ev e L I) as (e1 & E1 & I1). destruct IH as (es' & E' & F').
+    exists (e1 :: es'). split; [|now constructor].
+    cbn [disc_step flat_map]. rewrite E1. cbn [bind fst snd]. rewrite E'. reflexivity.
+Qed.
+
+Lemma disc_run_ok_from : forall sps l T es,
+  deliverable_from T l = true -> Forall2 (fun sp e => InvS sp T e) sps es ->
+  exists es', disc_run es l = Ok (es', dtransitions T l sps) /\
+              Forall2 (fun sp e => InvS sp (trun T l) e) sps es'.
+Proof.
+  intros sps l. induction l as [|ev l IH]; intros T es D F.
+  - exists es. split; auto.
+  - cbn [deliverable_from] in D. apply andb_true_iff in D as [L D].
+    destruct (disc_step_ok T ev sps es L F) as (e1 & E1 & F1).
+    destruct (IH _ _ D F1) as (e2 & E2 & F2).
+    exists e2. split; auto. cbn [disc_run dtransitions]. rewrite E1. cbn [bind fst snd]. rewrite E2. reflexivity.
+Qed.
+
+Lemma disc_new_inv : forall sps, Forall2 (fun sp e => InvS sp t_empty e) sps (disc_new sps).
+Proof. induction sps; cbn; constructor; auto. apply inv_new. Qed.
+
+Lemma delta_key : forall T ev sp d, delta T ev sp = Some d -> de_key d = sp_key sp.
+Proof.
+  intros T ev sp d H. unfold delta in H. destruct (ev_obj ev) as [u c].
+  destruct (matchingb T sp u c); destruct (matchingb (tstep T ev) sp u c); try discriminate;
+    injection H as <-; reflexivity.
+Qed.
+
+Lemma filter_key_none : forall T ev sps k,
+  (forall sp', In sp' sps -> sp_key sp' <> k) ->
+  filter (fun d => N.eqb (de_key d) k) (flat_map (fun sp' => olist (delta T ev sp')) sps) = [].
+Proof.
+  intros T ev sps k. induction sps as [|b sps IH]; intros H; auto.
+  cbn [flat_map]. rewrite filter_app, IH by (intros; apply H; now right).
+  rewrite app_nil_r. destruct (delta T ev b) as [d|] eqn:ED; auto. cbn.
+  rewrite (delta_key _ _ _ _ ED). assert (sp_key b <> k) by (apply H; now left).
+  apply N.eqb_neq in H0. now rewrite H0.
+Qed.
+
+Lemma filter_key_step : forall T ev sps sp,
+  NoDup (map sp_key sps) -> In sp sps ->
+  filter (fun d => N.eqb (de_key d) (sp_key sp)) (flat_map (fun sp' => olist (delta T ev sp')) sps)
+  = olist (delta T ev sp).
+Proof.
+  intros T ev sps sp. induction sps as [|a sps IH]; intros ND HI; [destruct HI|].
+  cbn [map] in ND. inversion ND as [|? ? NI ND']; subst.
+  cbn [flat_map]. rewrite filter_app.
+  assert (Hother : forall sp', In sp' sps -> sp_key sp' <> sp_key a).
+  { intros sp' HI' E. apply NI. rewrite <- E. now apply in_map. }
+  destruct HI as [->|HI].
+  - rewrite filter_key_none by auto.
+    rewrite app_nil_r. destruct (delta T ev sp) as [d|] eqn:ED; auto. cbn.
+    now rewrite (delta_key _ _ _ _ ED), N.eqb_refl.
+  - rewrite IH; auto. destruct (delta T ev a) as [d|] eqn:ED; auto. cbn.
+    rewrite (delta_key _ _ _ _ ED). assert (sp_key sp <> sp_key a) by now apply Hother.
+    rewrite (eqb_sym' (sp_key a)). apply N.eqb_neq in H. now rewrite H.
+Qed.
+
+(* with distinct keys, the Discoverer's event queue restricted to one key is that entry's
+   sequence of transitions, in order *)
+Lemma dtransitions_key : forall l T sps sp,
+  NoDup (map sp_key sps) -> In sp sps ->
+  filter (fun d => N.eqb (de_key d) (sp_key sp)) (dtransitions T l sps) = transitions T l sp.
+Proof.
+  induction l as [|ev l IH]; intros T sps sp ND HI; auto.
+  cbn [dtransitions transitions]. rewrite filter_app, filter_key_step, IH; auto.
+Qed.
+
+Lemma disc_step_reset : forall es ev es' evs,
+  disc_step es ev = Ok (es', evs) -> disc_reset es' = disc_reset es.
+Proof.
+  induction es as [|e es IH]; intros ev es' evs H; cbn [disc_step] in H.
+  - now injection H as <- _.
+  - destruct (entry_step e ev) as [[e1 d]|] eqn:E1; cbn [bind] in H; [|discriminate].
+    destruct (disc_step es ev) as [[es1 evs1]|] eqn:E2; cbn [bind] in H; [|discriminate].
+    injection H as <- _. cbn [fst disc_reset map]. f_equal.
+    + eapply step_reset; eauto.
+    + eapply IH; eauto.
+Qed.
+
+Lemma disc_run_reset : forall l es es' evs,
+  disc_run es l = Ok (es', evs) -> disc_reset es' = disc_reset es.
+Proof.
+  induction l as [|ev l IH]; intros es es' evs H; cbn [disc_run] in H.
+  - now injection H as <- _.
+  - destruct (disc_step es ev) as [[es1 evs1]|] eqn:E1; cbn [bind] in H; [|discriminate].
+    cbn [fst snd] in H. destruct (disc_run es1 l) as [[es2 evs2]|] eqn:E2; cbn [bind] in H; [|discriminate].
+    injection H as <- _. cbn [fst]. rewrite (IH _ _ _ E2). eapply disc_step_reset; eauto.
+Qed.
+
+Lemma disc_reset_new : forall sps l es evs,
+  disc_run (disc_new sps) l = Ok (es, evs) -> disc_reset es = disc_new sps.
+Proof.
+  intros sps l es evs H. rewrite (disc_run_reset _ _ _ _ H). unfold disc_reset, disc_new.
+  rewrite map_map. apply map_ext. intro. apply reset_new_id.
 Qed.
